@@ -244,10 +244,7 @@ def model_input(g, rec, job, synres, counts):
 def run(rep, tier, build, replay=None):
     rng = random.Random(common.seed() * 7919 + 15)
     gs = gen(rng, tier)
-    per_db = 24
-    dbs = [gs[i:i + per_db] for i in range(0, len(gs), per_db)]
-    nsh = common.NPROC
-    shards = [s for s in (dbs[i::nsh] for i in range(nsh)) if s]
+    shards = common.shard_dbs(gs, 24)
     outs = common.run_impl_parallel('run_graph.py', [{'dbs': s, 'want': ['ic']} for s in shards])
     byk = {rec['k']: rec for o in outs for rec in o}
     stats = {}
